@@ -13,8 +13,7 @@ from . import env
 from .env import lomond
 
 
-class SchedAbort(BaseException):
-    pass
+from .schedlock import SchedAbort, SchedLock, ThreadingShim, SHIM, InstalledShim, _active  # noqa
 
 
 class _T(object):
@@ -29,104 +28,6 @@ class _T(object):
         self.result = None
         self.thread = None
         self.ident = None
-
-
-_active = [None]     # the scheduler currently running (None outside scheduled phases)
-
-
-class SchedLock(object):
-    """Drop-in for threading.Lock / RLock created by lomond."""
-
-    def __init__(self, reentrant=False):
-        self.owner = None
-        self.count = 0
-        self.reentrant = reentrant
-
-    def acquire(self, blocking=True, timeout=-1):
-        s = _active[0]
-        if s is None:
-            if self.owner is not None and not (self.reentrant and self.owner == 'main'):
-                if not blocking:
-                    return False
-                raise RuntimeError('SchedLock: would block outside a scheduled phase')
-            self.owner = 'main'
-            self.count += 1
-            return True
-        me = s.current
-        s.yield_point('lock.acquire')
-        while self.owner is not None:
-            if self.reentrant and self.owner is me:
-                self.count += 1
-                return True
-            if self.owner is me:
-                # self-deadlock on a non-reentrant lock
-                me.blocked_on = self
-                s.switch_away()
-                continue
-            if not blocking:
-                return False
-            me.blocked_on = self
-            s.switch_away()
-        self.owner = me
-        self.count = 1
-        return True
-
-    def release(self):
-        s = _active[0]
-        if self.owner is None:
-            raise RuntimeError('release unlocked lock')
-        self.count -= 1
-        if self.count > 0:
-            return
-        self.owner = None
-        self.count = 0
-        if s is not None:
-            for t in s.threads:
-                if t.blocked_on is self:
-                    t.blocked_on = None
-            s.yield_point('lock.release')
-
-    def locked(self):
-        return self.owner is not None
-
-    def __enter__(self):
-        self.acquire()
-        return self
-
-    def __exit__(self, *a):
-        self.release()
-        return False
-
-
-class ThreadingShim(object):
-    """stands in for the `threading` module inside lomond modules"""
-
-    def __getattr__(self, name):
-        return getattr(_threading, name)
-
-    def Lock(self):
-        return SchedLock(False)
-
-    def RLock(self):
-        return SchedLock(True)
-
-
-SHIM = ThreadingShim()
-
-
-class InstalledShim(object):
-    def __enter__(self):
-        self.saved = []
-        for name, mod in list(sys.modules.items()):
-            if name.startswith('lomond') and mod is not None and getattr(mod, 'threading', None) is _threading:
-                self.saved.append(mod)
-                mod.threading = SHIM
-        return self
-
-    def __exit__(self, *a):
-        for mod in self.saved:
-            mod.threading = _threading
-        return False
 
 
 WRITE_PATH_FILES = ('session.py', 'websocket.py', 'compression.py', 'frame.py', 'mask.py')
